@@ -8,7 +8,11 @@ from bcheck.common import Collector, args, run_sharded, call
 from ural import normalize_url, infer_redirection
 
 FN = "ural.normalize_url.normalize_url"
-TRACKING = ["utm_source=x", "utm_medium=social", "fbclid=IwAR0", "sessionid=abc", "phpsessionid=q1", "jsessionid=1", "gclid=9", "amp=1", "amp_js_v=0.1", "ref=fb", "UTM_CAMPAIGN=z", "sid=3", "_ga=1"]
+TRACKING = ["utm_source=x", "utm_medium=social", "fbclid=IwAR0", "sessionid=abc", "phpsessionid=q1", "jsessionid=1", "gclid=9", "amp=1", "amp_js_v=0.1", "ref=fb", "UTM_CAMPAIGN=z", "sid=3", "_ga=1",
+            # key + value combinations (tracking and AMP), matched on the value too
+            "ref=tw", "platform=hootsuite", "fromref=twitter", "mode=amp", "output=amp", "outputType=AMP", "marfeeltn=amp", "spref=fb"]
+# the quick tier takes one item of every KIND (plain key, prefix pattern, session id, AMP key, AMP prefix, key=value combination, AMP combination, upper case)
+TRACKING_QUICK = ["utm_source=x", "fbclid=IwAR0", "sessionid=abc", "jsessionid=1", "amp=1", "amp_js_v=0.1", "ref=fb", "platform=hootsuite", "mode=amp", "outputType=AMP", "UTM_CAMPAIGN=z", "_ga=1"]
 TWIN = {"a": "%61", "é": "%c3%a9", "%C3%A9": "é", "B": "%42", "~": "%7e", "%7E": "~"}
 
 
@@ -79,7 +83,7 @@ def transforms(b, rnd, tier):
     if b.frag is None:
         yield "non-routing-fragment", b.copy(frag="section-2")
         yield "empty-fragment", b.copy(frag="")
-    for t in (TRACKING if tier == "thorough" else TRACKING[::2] + [rnd.choice(TRACKING)]):
+    for t in (TRACKING if tier == "thorough" else TRACKING_QUICK + [rnd.choice(TRACKING)]):
         for pos in range(len(b.items) + 1):
             yield "tracking-item:" + t.split("=")[0].lower(), b.copy(items=b.items[:pos] + [t] + b.items[pos:])
     if 2 <= len(b.items) <= 4:
